@@ -232,7 +232,8 @@ var subackSetters = []setter{
 var unsubscribeSetters = []setter{
 	{"SetPacketID", "u16"}, {"AddUnsubFilter", "ufilter"}, {"AddUserProp", "up"},
 }
-var disconnectSetters = []setter{{"SetReasonCode", "rc"}, {"AddUserProp", "up"}}
+var disconnectSetters = []setter{{"SetReasonCode", "rc"}, {"SetSessionExpiryInterval", "u32"}, {"SetReasonString", "str"},
+	{"SetServerReference", "str"}, {"AddUserProp", "up"}}
 var authSetters = []setter{
 	{"SetReasonCode", "rc"}, {"SetReasonString", "str"}, {"SetAuthMethod", "str"},
 	{"SetAuthData", "bin"}, {"AddUserProp", "up"},
